@@ -9,9 +9,12 @@ mod c02;
 mod c03;
 mod c04;
 mod c05;
+mod c10;
+mod c11;
 mod c12;
 mod c13;
 mod c14;
+mod c16;
 mod c18;
 
 use common::*;
@@ -221,6 +224,9 @@ fn main() {
         "C03" => c03::run(thorough),
         "C04" => c04::run(thorough),
         "C05" => c05::run(thorough),
+        "C10" => c10::run(thorough),
+        "C11" => c11::run(thorough),
+        "C16" => c16::run(thorough),
         "C12" => c12::run(thorough),
         "C13" => c13::run(thorough),
         "C14" => c14::run(thorough),
